@@ -31,3 +31,9 @@ def run(ctx):
     steps, walks = _drivermem.run_memory_stage(ctx)
     ctx.cov["evaluations"] += steps
     ctx.cov["traces_validated_against_impl"] += walks
+    # third stage: the same accounting behind the driver's HTTP API (specs/batchdb/DriverApi.tla): requests from workers, impostors and
+    # stale workers, requests overtaken by deactivation / removal / restart; tables and in-memory copy compared after every request
+    from checks import _driverapi
+
+    _driverapi.run_api_stage(ctx, footprint={"inst", "att", "mfree", "mst"}, budget_quick=8, budget_thorough=120, quick_programs=["api1q"],
+                               thorough_programs=["api1q", "api2i", "api2a"])
